@@ -15,6 +15,16 @@ func init() {
 		o.p("def refDedupCond : List String := %s\n", leanList(rd))
 		fl := mustFunc("internal/service/dataset/compact.go", "", "flushDeletes")
 		o.p("def flushOrder : List String := %s\n", leanList(callsIn(fl.Body, "flush", "Get", "Delete", "Set")))
+		// the loop that re-points latest pointers: compare with the snapshot's value before the Set
+		rw := []string{"?"}
+		ast.Inspect(fl.Body, func(n ast.Node) bool {
+			if r, ok := n.(*ast.RangeStmt); ok && oneLine(str(r.X)) == "ops.RewriteKeys" {
+				rw = skeleton(r.Body, suffixIn("Get", "ValueCopy", "Equal", "Set"), func(l string) bool { return l == "continue" || l == "break" })
+			}
+			return true
+		})
+		o.p("def rewriteLoop : List String := %s\n", leanList(rw))
+		o.p("def rewriteExpected : List String := %s\n", leanList(assignRHS(ev, "rewriteExpected")))
 		fe := mustFunc("internal/service/dataset/compact.go", "CompactionWorker", "forEntity")
 		// the change-log scan (strategy.flush) runs in EVERY flush transaction, unconditionally: first
 		// statement of the Update closure
